@@ -52,6 +52,8 @@ type HistRun struct {
 	St    *Stack
 	ctx   context.Context
 	ctrl  ledgercontroller.Controller
+	HTTPDiff []string
+	API   *httpAPI // non-nil: operations and reads go through the v2 HTTP API (TIE-H, httpop.go)
 }
 
 func histCaseSx(f Feat, ops []Op) string {
@@ -80,6 +82,9 @@ func newHistRunFS(f Feat, fs features.FeatureSet, listener bool) *HistRun {
 
 func (hr *HistRun) Step(o Op) OpResult {
 	hr.St.PG.Clock = pgsem.TS(o.Now)
+	if hr.API != nil {
+		return hr.stepHTTP(o)
+	}
 	res := runOp(hr.ctx, hr.ctrl, o)
 	hr.Ops = append(hr.Ops, o)
 	hr.Res = append(hr.Res, res)
@@ -87,6 +92,67 @@ func (hr *HistRun) Step(o Op) OpResult {
 		hr.Snaps = append(hr.Snaps, hr.St.Snapshot(hr.ctx, hr.ctrl, "l1", hr.Feat))
 	}
 	return res
+}
+
+// newHistRunHTTP: the ledger is created through POST /v2/l1 with the feature set in the body
+func newHistRunHTTP(f Feat, fs features.FeatureSet) *HistRun {
+	st := NewStack(StackOpts{})
+	hr := &HistRun{Feat: f, St: st, ctx: context.Background(), API: newHTTPAPI(st)}
+	body, err := json.Marshal(map[string]any{"bucket": "_default", "features": fs})
+	must(err)
+	if resp := hr.API.do("POST", "/v2/l1", nil, string(body)); resp.Code != 204 {
+		panic(fmt.Sprintf("create ledger over HTTP: %d %s", resp.Code, resp.Body))
+	}
+	ctrl, err := st.Sys.GetLedgerController(hr.ctx, "l1")
+	must(err)
+	hr.ctrl = ctrl
+	return hr
+}
+
+func (hr *HistRun) stepHTTP(o Op) OpResult {
+	res := hr.API.runOp("l1", o)
+	hr.Ops = append(hr.Ops, o)
+	hr.Res = append(hr.Res, res)
+	if res.Panic == "" {
+		hs := hr.St.SnapshotHTTP(hr.API, "l1", hr.Feat)
+		hr.Snaps = append(hr.Snaps, hs)
+		// monitor (no model involved): the API's rendering of the state is the controller's
+		if cs := hr.St.Snapshot(hr.ctx, hr.ctrl, "l1", hr.Feat); cs.sx() != hs.sx() || fmt.Sprint(cs.Agg) != fmt.Sprint(hs.Agg) || !sameHashes(cs.Logs, hs.Logs) {
+			hr.HTTPDiff = append(hr.HTTPDiff, fmt.Sprintf("after operation %d the v2 read endpoints and the controller reads differ [http-read-differs]: http %s %v / controller %s %v", len(hr.Ops), diffAt(hs.sx(), cs.sx()), hs.Agg, diffAt(cs.sx(), hs.sx()), cs.Agg))
+		}
+		if m := hr.API.checkWriteAnswer("l1", o, res, hs); m != "" {
+			hr.HTTPDiff = append(hr.HTTPDiff, m)
+		}
+	}
+	return res
+}
+
+func sameHashes(a, b []SnapLog) bool {
+	if len(a) != len(b) {
+		return false
+	}
+	for i := range a {
+		if string(a[i].Hash) != string(b[i].Hash) {
+			return false
+		}
+	}
+	return true
+}
+
+// firstDiff: the neighbourhood of the first position where a differs from b
+func diffAt(a, b string) string {
+	i := 0
+	for i < len(a) && i < len(b) && a[i] == b[i] {
+		i++
+	}
+	lo, hi := i-60, i+100
+	if lo < 0 {
+		lo = 0
+	}
+	if hi > len(a) {
+		hi = len(a)
+	}
+	return "..." + a[lo:hi] + "..."
 }
 
 func runHistory(f Feat, ops []Op, listener bool) *HistRun {
@@ -135,9 +201,22 @@ func cmdHist(args []string) int {
 		prof.AdversarialKV = true
 	}
 	mon := monitorsFor(f.Extra["monitors"])
+	via, viaKind := f.Extra["via"], f.Extra["monitors"]
+	if via == "http" {
+		mon = nil // the controller-level monitors read Go values an HTTP answer does not carry; TIE-H has its own (stepHTTP)
+	}
+	open := func(feat Feat) *HistRun {
+		if via == "http" {
+			return newHistRunHTTP(feat, feat.set())
+		}
+		return newHistRun(feat, false)
+	}
 	finish := func(hr *HistRun) {
 		feat, ops := hr.Feat, hr.Ops
 		cs := histCaseSx(feat, ops)
+		if hr.API != nil {
+			cs = "(histh" + strings.TrimPrefix(cs, "(hist")
+		}
 		out.Case(cs, hr.traceSx())
 		out.Stats["cases"]++
 		out.Stats["ops"] += len(ops)
@@ -165,11 +244,23 @@ func cmdHist(args []string) int {
 				out.Violation(m.id, cs, msg)
 			}
 		}
+		for _, msg := range hr.HTTPDiff {
+			out.Violation(viaKind, cs, msg)
+		}
+		if hr.API != nil {
+			out.Stats["http_requests"] += hr.API.nreq
+		}
 	}
 	if f.Replay != "" {
 		for _, line := range ReadLines(f.Replay) {
 			feat, ops := parseHistCase(line)
-			finish(runHistory(feat, ops, false))
+			hr := open(feat)
+			for _, o := range ops {
+				if hr.Step(o).Panic != "" {
+					break
+				}
+			}
+			finish(hr)
 		}
 		return 0
 	}
@@ -180,7 +271,7 @@ func cmdHist(args []string) int {
 		if len(prof.Features) > 0 {
 			feat = Pick(rr, prof.Features)
 		}
-		hr := newHistRun(feat, false)
+		hr := open(feat)
 		genHistory(rr, prof, feat, hr.Step)
 		finish(hr)
 	}
